@@ -15,7 +15,8 @@
      follower: processTransactions in strict (non-arbitrating) mode.
 
    A pending transaction is the tuple of facts the code consults:
-     ph          its hash as the big-endian integer (bytes.Compare order = integer order)
+     ph          the first 8 bytes of its hash as a big-endian integer (bytes.Compare order =
+                 integer order; the harness checks that no two pool hashes share these bytes)
      pfee        fee computed by Blockchain.TransactionFee at the head (None = the fee calculator errors)
      psize       encoded size in bytes
      pins        ids of the outputs it spends (harness id table; only equality matters)
